@@ -83,3 +83,12 @@ Print Assumptions C16_no_error_join.
 Theorem C16_no_error_partial : bisect_safe -> forall cc clock a b, exists d, diff_main cc clock a b = Ok d.
 Proof. intros H cc clock a b. exact (diff_main_total cc clock a b H). Qed.
 Print Assumptions C16_no_error_partial.
+
+(* [bisect_safe] holds (XV.DMPBisect1 .. XV.DMPBisect5: the invariants of the two halves of the
+   middle-snake search as trimmed by k1start/k1end/k2start/k2end, and their interplay), so
+   diff_main returns for ALL clocks and ALL strings: no index error, and no loop or recursion of
+   the model runs out of fuel. *)
+Require Import XV.DMPBisect5.
+Theorem C16_no_error : forall cc clock a b, exists d, diff_main cc clock a b = Ok d.
+Proof. exact (C16_no_error_partial bisect_safe_holds). Qed.
+Print Assumptions C16_no_error.
